@@ -39,9 +39,16 @@ pub const POOL: &[(&str, &str)] = &[
     ("ш\u{10428}?", "i"),
     ("[Ѐ-ш]+", "i"),
     ("a", "i"),
+    // patterns that match the empty string: replace_all / tokenize / analyze must keep answering
+    // MatchesEmptyString whatever was called on the object before
+    ("^a*$", ""),
+    ("^$", "m"),
+    ("^\\s*$", ""),
+    ("(ab)*", "i"),
+    ("a?", ""),
 ];
 
-pub const INPUTS: &[&str] = &["Ш\u{10428}", "\u{10400}ѐ", "Ѐш\u{10428}\u{10400}", "A\u{10041}", "\u{10041}a", "", "a", "ab", "aab", "abcd", "aabbcc", "a\nb", "  word\nb", "αβγ a", "дaÀ", "xyz", "123 4567", "abab", "aAbB", "aac", "a\nc", "caab", "bbb"];
+pub const INPUTS: &[&str] = &["aaa", "b", "  ", "Ш\u{10428}", "\u{10400}ѐ", "Ѐш\u{10428}\u{10400}", "A\u{10041}", "\u{10041}a", "", "a", "ab", "aab", "abcd", "aabbcc", "a\nb", "  word\nb", "αβγ a", "дaÀ", "xyz", "123 4567", "abab", "aAbB", "aac", "a\nc", "caab", "bbb"];
 
 #[derive(Clone, Debug, PartialEq)]
 enum Res {
